@@ -133,6 +133,18 @@ func init() {
 				if i%5 == 0 {
 					sc.Text = strings.ReplaceAll(sc.Text, " ", "  ") // layout variation: positions move
 				}
+				// the file as a user saves it: blank lines / a comment before the script, a final line
+				// comment with or without its line feed, trailing blanks - the CLI must analyse these very bytes
+				switch i % 6 {
+				case 1:
+					sc.Text = "\n\n" + sc.Text
+				case 2:
+					sc.Text = "  \n// header\n" + sc.Text + "\n// done"
+				case 3:
+					sc.Text = sc.Text + "\n// done\n"
+				case 4:
+					sc.Text = "\t" + sc.Text + "  \n\n"
+				}
 			}
 			sc.Kind = skStatic
 			// ---- numscript check
